@@ -85,7 +85,7 @@ static int step(int e)
         break; }
     default: break;
     }
-    (void)CONodeGetErr(&Node);
+    nc_poll();                   
     /* a frame buffered before an NMT change: applying it at a SYNC in OPERATIONAL or dropping it are both admissible */
     for (int ch = 0; ch < 3; ch++) if (M.pend[ch] == 2 && e == E_SYNC && M.op) {
         Img keep = M.img; apply(ch, M.pdata[ch]);
